@@ -39,6 +39,7 @@ struct Args {
     seed: u64,
     replay: Option<String>,
     runs: Option<u64>,
+    only: Option<u64>,
     trace: Option<String>,
     evidence_dir: String,
     replay_dir: String,
@@ -59,6 +60,7 @@ fn parse_args() -> Args {
         seed: std::env::var("VERIF_SEED").ok().and_then(|s| s.parse().ok()).unwrap_or(1),
         replay: None,
         runs: None,
+        only: None,
         trace: None,
         evidence_dir: format!("{}/evidence", home()),
         replay_dir: format!("{}/replays", home()),
@@ -86,6 +88,10 @@ fn parse_args() -> Args {
                 i += 1;
                 a.runs = Some(v[i].parse().expect("runs"));
             }
+            "--only" => {
+                i += 1;
+                a.only = Some(v[i].parse().expect("only"));
+            }
             "--trace" => {
                 i += 1;
                 a.trace = Some(v[i].clone());
@@ -106,10 +112,155 @@ fn parse_args() -> Args {
     a
 }
 
+const DONE_MARKER: &str = "VSIM-DONE ";
+
 fn main() {
+    let a = parse_args();
+    let is_check = property(&a.cmd).is_some();
+    if is_check && std::env::var("VSIM_CHILD").is_err() && std::env::var("VSIM_NO_SUPERVISOR").is_err() {
+        std::process::exit(supervisor(&a));
+    }
     let code = real_main();
     sim::cleanup_scratch();
+    if std::env::var("VSIM_CHILD").is_ok() {
+        println!("{}{}", DONE_MARKER, code);
+    }
     std::process::exit(code);
+}
+
+/// What became of a worker process.
+enum ChildEnd {
+    /// ran to the end and said so
+    Done(i32),
+    /// died: exit status / signal without the completion marker
+    Died(String),
+    /// a run made no progress for too long
+    Hung(u64),
+}
+
+/// Run this executable again as the worker process, forward its output, watch its progress.
+fn run_child(extra: &[String], progress_dir: &str, hang_secs: u64) -> ChildEnd {
+    use std::io::{BufRead, BufReader};
+    use std::os::unix::process::ExitStatusExt;
+    let me = std::env::current_exe().expect("exe");
+    let args: Vec<String> = std::env::args().skip(1).chain(extra.iter().cloned()).collect();
+    let _ = std::fs::remove_dir_all(progress_dir);
+    std::fs::create_dir_all(progress_dir).expect("progress dir");
+    let mut child = std::process::Command::new(me)
+        .args(&args)
+        .env("VSIM_CHILD", "1")
+        .env("VSIM_PROGRESS", progress_dir)
+        .stdout(std::process::Stdio::piped())
+        .spawn()
+        .expect("spawn worker process");
+    let child_pid = child.id();
+    let out = child.stdout.take().unwrap();
+    let reader = std::thread::spawn(move || {
+        let mut done: Option<i32> = None;
+        for line in BufReader::new(out).lines().map_while(Result::ok) {
+            if let Some(c) = line.strip_prefix(DONE_MARKER) {
+                done = c.trim().parse().ok();
+            } else {
+                println!("{}", line);
+            }
+        }
+        done
+    });
+    // watchdog: a single run that makes no progress for `hang_secs` of wall clock
+    let mut hung: Option<u64> = None;
+    let status = loop {
+        match child.try_wait() {
+            Ok(Some(s)) => break Some(s),
+            Ok(None) => {}
+            Err(_) => break None,
+        }
+        std::thread::sleep(std::time::Duration::from_millis(500));
+        let now = std::time::SystemTime::now().duration_since(std::time::UNIX_EPOCH).map(|d| d.as_secs()).unwrap_or(0);
+        if let Some((i, _)) = runner::progress::read_all(progress_dir).into_iter().find(|(_, t)| *t > 0 && now.saturating_sub(*t) > hang_secs) {
+            hung = Some(i);
+            let _ = child.kill();
+            break child.wait().ok();
+        }
+    };
+    let done = reader.join().unwrap_or(None);
+    // a worker that died could not remove its scratch directory
+    if let Some(parent) = sim::scratch_root().parent() {
+        let _ = std::fs::remove_dir_all(parent.join(format!("vsim-{:010}", child_pid)));
+    }
+    if let Some(i) = hung {
+        return ChildEnd::Hung(i);
+    }
+    match (status, done) {
+        (Some(s), Some(c)) if s.code() == Some(c) => ChildEnd::Done(c),
+        (Some(s), _) => ChildEnd::Died(match (s.code(), s.signal()) {
+            (Some(c), _) => format!("worker process exited with status {} without finishing", c),
+            (_, Some(sig)) => format!("worker process killed by signal {}", sig),
+            _ => "worker process vanished".to_string(),
+        }),
+        (None, _) => ChildEnd::Died("worker process could not be waited for".to_string()),
+    }
+}
+
+/// The supervisor: the code under test runs in a worker process, so that a raw process exit,
+/// abort, stack overflow or hang inside it is reported as a violation of the run that caused it
+/// instead of silently ending the check.
+fn supervisor(a: &Args) -> i32 {
+    let p = property(&a.cmd).unwrap();
+    let dir = format!("{}/progress", sim::scratch_root().display());
+    let hang_secs: u64 = std::env::var("VERIF_HANG_SECS").ok().and_then(|s| s.parse().ok()).unwrap_or(300);
+    let end = run_child(&[], &dir, hang_secs);
+    let code = match end {
+        ChildEnd::Done(c) => c,
+        ChildEnd::Died(_) | ChildEnd::Hung(_) => {
+            let what = match &end {
+                ChildEnd::Died(m) => m.clone(),
+                ChildEnd::Hung(i) => format!("run {} made no progress for {} s", i, hang_secs),
+                _ => unreachable!(),
+            };
+            println!("worker process did not finish: {} — looking for the run that caused it", what);
+            if let Some(f) = &a.replay {
+                println!("  clause=process-death");
+                println!("  observed : {}", what);
+                println!("VIOLATION property={} replay={}", p.id(), f);
+                1
+            } else {
+                let mut cands: Vec<u64> = runner::progress::read_all(&dir).into_iter().map(|x| x.0).collect();
+                if let ChildEnd::Hung(i) = &end {
+                    cands = vec![*i];
+                }
+                cands.dedup();
+                let mut verdict = 2;
+                for i in cands {
+                    let sub = format!("{}-only", dir);
+                    let e = run_child(&["--only".to_string(), i.to_string()], &sub, hang_secs);
+                    let (clause, obs) = match e {
+                        ChildEnd::Done(_) => continue,
+                        ChildEnd::Died(m) => ("process-death", m),
+                        ChildEnd::Hung(_) => ("hang", format!("the run alone made no progress for {} s of wall clock (no step-clock tick either)", hang_secs)),
+                    };
+                    let sc = runner::make_scenario(p.as_ref(), a.seed, i, a.tier);
+                    let v = runner::Violation::new(clause, "the run ends inside the simulator (return, hooked exit, step clock)", obs.clone());
+                    let rdir = format!("{}/{}", a.replay_dir, p.id());
+                    std::fs::create_dir_all(&rdir).ok();
+                    let path = format!("{}/{}-{}.json", rdir, a.seed, i);
+                    let j = runner::replay_json(&sc, &v, &runner::RunOut::default(), 0);
+                    std::fs::write(&path, j.pretty()).expect("write replay");
+                    println!("  clause   : {}", clause);
+                    println!("  observed : {}", obs);
+                    println!("  program  : {}", runner::truncate(&sc.source(), 600));
+                    println!("VIOLATION property={} replay={}", p.id(), path);
+                    verdict = 1;
+                    break;
+                }
+                if verdict == 2 {
+                    println!("HARNESS-ERROR: the worker process died ({}) and no single run reproduces it", what);
+                }
+                verdict
+            }
+        }
+    };
+    sim::cleanup_scratch();
+    code
 }
 
 fn real_main() -> i32 {
@@ -118,6 +269,15 @@ fn real_main() -> i32 {
     if let Some(p) = property(&a.cmd) {
         if let Some(f) = &a.replay {
             return replay(p.as_ref(), f);
+        }
+        if let Some(i) = a.only {
+            // one run, nothing else (used by the supervisor to find the run that kills the process)
+            let sc = runner::make_scenario(p.as_ref(), a.seed, i, a.tier);
+            runner::progress::set(i);
+            let out = p.run(&sc);
+            runner::progress::set(runner::progress::IDLE);
+            println!("run {}: violation={:?}", i, out.violation.map(|v| v.clause));
+            return 0;
         }
         return check(p.as_ref(), &a);
     }
@@ -212,7 +372,7 @@ fn check(p: &dyn Property, a: &Args) -> i32 {
             std::fs::write(&path, j.pretty()).expect("write replay");
             // the replay must reproduce in a fresh process before we report
             let me = std::env::current_exe().expect("exe");
-            let r = std::process::Command::new(me).arg(p.id()).arg("--replay").arg(&path).output();
+            let r = std::process::Command::new(me).arg(p.id()).arg("--replay").arg(&path).env("VSIM_NO_SUPERVISOR", "1").env_remove("VSIM_CHILD").env_remove("VSIM_PROGRESS").output();
             let reproduced = match &r {
                 Ok(o) => o.status.code() == Some(1) && String::from_utf8_lossy(&o.stdout).contains(&format!("clause={}", mv.clause)),
                 Err(_) => false,
